@@ -1029,7 +1029,8 @@ def ext(ctx):
                 "(every transition of the model replayed on the real objects): Versions.tla - version strings and "
                 "matching, the client-version registry, the version provider, the namespace provider, sequentially; "
                 "VdrApi.tla - VDR.Accept / Update / Deactivate / Close; ClientSend.tla - how the Sidetree client delivers a "
-                "request (endpoint discovery with / without cache, one retry, bearer tokens) against local HTTP nodes. A disagreement is reported as NONCONFORMANCE with "
+                "request (endpoint discovery with / without cache, one retry, bearer tokens) against local HTTP nodes; Identifiers.tla - the ids "
+                "a resolution is given (pkg/docutil), the document validators, the create result. A disagreement is reported as NONCONFORMANCE with "
                 "the extension specification, not as a violation of a property.")
     deep = ctx.tier != "quick"
     _, vs = ctx.tlc_pipe("MC_Versions.tla", "MC_Versions.cfg", ["versions-replay"], workers=4,
@@ -1054,6 +1055,15 @@ def ext(ctx):
         rec["res"] = "ok" if rec["res"] != "ok" else "err"
 
     ctx.negctl_replay(["clientsend-replay"], cs["_first_edge"], cwrong)
+    _, ids = ctx.tlc_pipe("MC_Identifiers.tla", "MC_Identifiers.cfg", ["identifiers-replay"], workers=1,
+                          label="Identifiers.tla: ids of published (canonical x equivalent references) and unpublished (label x domain x "
+                                "initial state) resolutions, payload / original-document validators x shapes, create result x delta shapes")
+
+    def iwrong(rec):
+        rec["expected"]["ok"] = not rec["expected"]["ok"]
+        rec["expected"]["published"] = not rec["expected"]["published"]
+
+    ctx.negctl_replay(["identifiers-replay"], ids["_first_edge"], iwrong)
     if deep:
         ctx.tlaps_check("VersionsProofs.tla", needs=("Versions.tla",), abstract_ops=False,
                         label="TLAPS: version matching is an equivalence on all strings and looks at two parts; the "
